@@ -1,6 +1,7 @@
 -------------------------- MODULE MCSS2022Stream --------------------------
 EXTENDS SS2022Stream, Json
 MCAddrLens == ${AddrLens}
+MCIdleSecs == ${IdleSecs}
 MCPads == ${Pads}
 MCPSizes == ${PSizes}
 MCWSizes == ${WSizes}
